@@ -27,7 +27,7 @@ func (m PropagateMatchersOptimizer) Optimize(expr parser.Expr) parser.Expr {
 		}
 
 		// TODO(fpetkovski): Investigate support for vector matching on a subset of labels.
-		if binOp.VectorMatching != nil && len(binOp.VectorMatching.MatchingLabels) > 0 {
+		if binOp.VectorMatching != nil && (binOp.VectorMatching.On || len(binOp.VectorMatching.MatchingLabels) > 0) {
 			return
 		}
 
@@ -58,6 +58,10 @@ func propagateMatchers(binOp *parser.BinaryExpr) {
 
 	lhMatchers := toMatcherMap(lhSelector)
 	rhMatchers := toMatcherMap(rhSelector)
+	// A selector with several matchers on one label cannot be represented.
+	if len(lhMatchers) != len(lhSelector.LabelMatchers) || len(rhMatchers) != len(rhSelector.LabelMatchers) {
+		return
+	}
 	union, hasDuplicates := makeUnion(lhMatchers, rhMatchers)
 	if hasDuplicates {
 		return
@@ -122,11 +126,10 @@ func toMatcherMap(lhSelector *parser.VectorSelector) map[string]*labels.Matcher 
 	return lhMatchers
 }
 
+// duplicateExists reports whether the other side has a matcher on the same
+// label. Two different matchers on one label have no union, and equal ones
+// are already in place.
 func duplicateExists(matchers map[string]*labels.Matcher, matcher *labels.Matcher) bool {
-	existing, ok := matchers[matcher.Name]
-	if !ok {
-		return false
-	}
-
-	return existing.String() == matcher.String()
+	_, ok := matchers[matcher.Name]
+	return ok
 }
